@@ -304,6 +304,12 @@ extern "C" int harness_main() {
     load_reference();
     std::vector<std::string> on_cycle;
     bool declared_cycle = needs_cycle(o.targets, false, &on_cycle);
+    { // statements the scenario text itself puts on a cycle (independent of what ninja's parser made of them)
+      std::vector<std::string> cl; for (size_t i = 0; i < o.targets.size(); i++) closure(o.targets[i], &cl);
+#if SCENARIO != 23
+      for (size_t i = 0; i < cl.size(); i++) { const CmdSpec* cs = spec_for(cl[i]); if (cs && (cs->flags & EXPECT_CYCLE)) declared_cycle = true; }
+#endif
+    }
     std::vector<std::string> on_cycle2; bool any_cycle = needs_cycle(o.targets, true, &on_cycle2);
     // has every statement whose discovered inputs close the cycle already run once (so that its depfile / deps record exists)?
     bool recorded = true;
@@ -312,6 +318,17 @@ extern "C" int harness_main() {
     VERIF_ASSERT(r.parsed, "the scenario manifest parses");
     observe(r);
     bool says_cycle = r.err.find("dependency cycle") != std::string::npos;
+#if SCENARIO == 23
+    // the dyndep file, built during this invocation, makes 'out' produce o2, which 'rout' (an input of 'out') reads: a cycle that only exists once dd is loaded
+    { bool out_ran = false; for (size_t i = 0; i < g_ref.size(); i++) if (g_ref[i].outs[0] == "out" && has_id(r.started, g_ref[i].ordinal)) out_ran = true;
+      bool rout_done_first = event_before(r.events, "ok rout", "ok dd");
+      if (rout_done_first) {
+        VERIF_ASSERT(!out_ran && r.rc != 0 && says_cycle, "C17: a cycle closed by a dyndep file loaded mid-build is diagnosed and none of its commands run (the other statement on the cycle had already finished)");
+      } else {
+        VERIF_ASSERT(!out_ran && r.rc != 0 && says_cycle, "C17: a cycle closed by a dyndep file loaded mid-build is diagnosed and none of its commands run (the other statement on the cycle was still running or not started)");
+      }
+      verif_reach("dyndep-cycle"); return 0; }
+#endif
     if (declared_cycle) {
       VERIF_ASSERT((!r.added || r.rc != 0) && says_cycle, "C17: a dependency cycle in the part of the graph needed for the requested targets is diagnosed");
       VERIF_ASSERT(cycle_message_ok(r.err), "C17: the diagnostic spells out an actual, closed cycle");
